@@ -1,7 +1,13 @@
 package main
 
 import (
+	"fmt"
+	"os"
+	"strings"
 	"time"
+
+	"github.com/bilibili/gengine/builder"
+	"github.com/bilibili/gengine/verifrt/vsched"
 
 	"verif/harness/hx"
 )
@@ -86,7 +92,52 @@ func c04Configs(thorough bool) []modelCfg {
 			}
 		}
 	}
+	// several rules per incremental call (adds in front of / between existing rules together with
+	// replacements and salience changes of existing rules), every map-iteration order inside the builds
+	mk := func(v ...int64) []ruleCfg {
+		var rs []ruleCfg
+		for i, x := range v {
+			rs = append(rs, ruleCfg{Name: ruleNames[i], Sal: x})
+		}
+		return rs
+	}
+	type grp struct {
+		rules  []ruleCfg
+		groups [][]int
+		pre    []int64
+	}
+	gs := []grp{
+		{mk(30, 20, 10, 50), [][]int{{0, 1, 2}, {3, 2}}, nil},                    // add r3 in front + replace r2 in one call
+		{mk(30, 20, 10, 15), [][]int{{0, 1, 2}, {3, 1}}, nil},                    // add in the middle + replace
+		{mk(30, 20, 25, 50), [][]int{{0, 1, 2}, {3, 2}}, []int64{30, 20, 10, 0}}, // add in front + move r2 up
+		{mk(5, 20, 10, 1), [][]int{{0, 1, 2}, {0, 3}}, []int64{30, 20, 10, 0}},   // move r0 down + add at the end
+		{mk(30, 20, 10, 40, 50), [][]int{{0, 1, 2}, {3, 4, 1}}, nil},             // two adds + replace
+		{mk(30, 30, 10, 30), [][]int{{0, 1, 2}, {3, 0}}, nil},                    // ties
+		{mk(30, 20, 10, 50), [][]int{{0, 1}, {2, 3}, {1, 3}}, nil},               // two incremental calls
+		{mk(7, 20, 25, 50, 2), [][]int{{0, 1, 2}, {3, 2, 0}, {4, 1}}, []int64{30, 20, 10, 0, 0}},
+	}
+	if thorough {
+		gs = append(gs,
+			grp{mk(30, 20, 10, 5, 50, 25), [][]int{{0, 1, 2, 3}, {4, 5, 2, 1}}, nil},
+			grp{mk(1, 2, 3, 4), [][]int{{0, 1, 2, 3}, {0, 1, 2, 3}}, []int64{4, 3, 2, 1}},
+		)
+	}
+	for _, g := range gs {
+		for _, b := range []bool{true, false} {
+			out = append(out, modelCfg{Prop: "C04", Rules: g.rules, Model: "Execute", B: b, Groups: g.groups, Pre: g.pre})
+		}
+	}
 	return out
+}
+
+func c04BuilderSites() map[int32]bool {
+	sites := map[int32]bool{}
+	for i, s := range vsched.SiteTable {
+		if strings.HasPrefix(s.File, "builder/") && !s.Write && !strings.HasPrefix(s.Expr, "builder.") {
+			sites[int32(i)] = true
+		}
+	}
+	return sites
 }
 
 func init() {
@@ -97,9 +148,42 @@ func init() {
 		BudgetThor:  25 * time.Minute,
 		Kind:        "schedules",
 		Rule: "all rule sets of 1..4(5) rules with saliences from {-1, 0, 2, absent} (every pattern incl. ties/negatives) x every failing subset x both policy values x {Execute, ExecuteSelectedRules, ExecuteSelectedRulesWithControl}; " +
-			"plus arrival histories: every insertion order via BuildRuleWithIncremental and every incremental salience change; each case is one deterministic execution on the real engine judged against the staged reference plan (one-at-a-time, non-increasing salience, exactly once, stop/continue policy, error iff failure, per-rule effect counters)",
-		Assume:  []string{"injected observer functions terminate"},
-		Run:     func(c *hx.Ctx) { runModelConfigs(c, "C04", c04Configs(c.Thorough()), 0) },
+			"plus arrival histories: every insertion order via BuildRuleWithIncremental, every incremental salience change, and incremental calls carrying several rules at once (adds mixed with replacements and salience changes) under every map-iteration order inside the builds; each case is one deterministic execution on the real engine judged against the staged reference plan (one-at-a-time, non-increasing salience, exactly once, stop/continue policy, error iff failure, per-rule effect counters)",
+		Assume: []string{"injected observer functions terminate"},
+		Run: func(c *hx.Ctx) {
+			var plain, grouped []modelCfg
+			for _, cfg := range c04Configs(c.Thorough()) {
+				if cfg.Groups != nil {
+					grouped = append(grouped, cfg)
+				} else {
+					plain = append(plain, cfg)
+				}
+			}
+			runModelConfigs(c, "C04", plain, 0)
+			opts := vsched.Options{MapChoices: true, MapSites: c04BuilderSites()}
+			for i, cfg := range grouped {
+				if !c.Mine(i) {
+					continue
+				}
+				cfg := cfg
+				var rb *builder.RuleBuilder
+				nenv := 0
+				defer func() {
+					if os.Getenv("HX_DEBUG") != "" {
+						fmt.Fprintf(os.Stderr, "DEBUG grouped %v env=%d\n", cfg.Groups, nenv)
+					}
+				}()
+				hx.EnvRuns(opts, func() { rb = cfg.buildGroups() }, func(choices []int32) {
+					nenv++
+					if os.Getenv("HX_DEBUG") != "" {
+						fmt.Fprintf(os.Stderr, "DEBUG env %v sortrules=%d entities=%d\n", choices, len(rb.Kc.SortRules), len(rb.Kc.RuleEntities))
+					}
+					cc := cfg
+					cc.Env = append([]int32{}, choices...)
+					hx.Explore("C04", modelScenarioWith(cc, rb), hx.ExploreCfg{Bound: 0, Deadline: c.Deadline}, c.Res)
+				})
+			}
+		},
 		Rebuild: rebuildModel,
 	})
 }
